@@ -96,7 +96,15 @@ const PARSERS: &[&str] = &[
     "parchive", "pindex", "zbsdiff", "zbsparse", "cfgbuild", "cfgcdn", "cfgpatch", "cfgproduct", "cfgkeyring",
     "bpsv", "espec", "mime", "mimesniff", "idx", "updsec", "residency", "respage", "lru", "shmem", "buildinfo",
     "localhdr", "mimebpsv", "encchunk", "lruload", "lruuse", "enchdr", "mimev1",
+    // sub-parsers selected by a type / version byte, reached directly; structured ZBSDIFF apply (old
+    // file + inflated blocks, both patchers); list operations derived from a crafted .lru table
+    "phdr", "pblock2", "pblock8", "pentry", "zbsmem", "zbsstream", "zbsstream1k", "zbsobj", "lrutouch", "lruremove",
+    "lruevict", "lrumix",
 ];
+
+/// parsers whose `run` response carries a result detail (` d=<token>`) that the model predicts
+const DETAILED: &[&str] = &["zbsmem", "zbsstream", "zbsstream1k", "zbsobj", "lrutouch", "lruremove", "lruevict", "lrumix"];
+const LRU_OPS: &[&str] = &["lrutouch", "lruremove", "lruevict", "lrumix"];
 
 // ---------------------------------------------------------------------------------------------
 // key store handed to the BLTE decoders. An encrypted chunk is only read beyond its key name when
@@ -143,6 +151,170 @@ fn espec_depth(e: &cascette_formats::espec::ESpec) -> usize {
     }
 }
 
+// ---- structured ZBSDIFF apply -----------------------------------------------------------------
+/// FNV-1a 64 (result token of the structured apply parsers; the Lean driver computes the same)
+fn fnv1a(b: &[u8]) -> u64 {
+    let mut h: u64 = 0xcbf2_9ce4_8422_2325;
+    for x in b {
+        h ^= u64::from(*x);
+        h = h.wrapping_mul(0x0000_0100_0000_01b3);
+    }
+    h
+}
+
+/// input of the `zbs*` parsers: `[u16le n][old][u16le n][control bytes, inflated][u16le n][diff block,
+/// inflated][u16le n][extra block, inflated][u32le output_size]` — the worker deflates the three
+/// blocks and frames them behind a ZBSDIFF1 header, so the patch is structurally valid whatever the
+/// control entries say
+fn zbs_composite(old: &[u8], ctl: &[u8], diff: &[u8], extra: &[u8], out: u32) -> Vec<u8> {
+    let mut d = vec![];
+    for part in [old, ctl, diff, extra] {
+        d.extend_from_slice(&(part.len() as u16).to_le_bytes());
+        d.extend_from_slice(part);
+    }
+    d.extend_from_slice(&out.to_le_bytes());
+    d
+}
+
+fn zbs_split(d: &[u8]) -> Option<(Vec<Vec<u8>>, u32)> {
+    let mut parts = vec![];
+    let mut pos = 0usize;
+    for _ in 0..4 {
+        let n = u16::from_le_bytes([*d.get(pos)?, *d.get(pos + 1)?]) as usize;
+        pos += 2;
+        parts.push(d.get(pos..pos + n)?.to_vec());
+        pos += n;
+    }
+    if d.len() != pos + 4 {
+        return None;
+    }
+    Some((parts, u32::from_le_bytes([d[pos], d[pos + 1], d[pos + 2], d[pos + 3]])))
+}
+
+fn zbs_patch(ctl: &[u8], diff: &[u8], extra: &[u8], out: u32) -> Vec<u8> {
+    use cascette_formats::zbsdiff::compress_zlib;
+    let c = compress_zlib(ctl).unwrap_or_default();
+    let df = compress_zlib(diff).unwrap_or_default();
+    let e = compress_zlib(extra).unwrap_or_default();
+    let mut p = b"ZBSDIFF1".to_vec();
+    p.extend_from_slice(&(c.len() as i64).to_le_bytes());
+    p.extend_from_slice(&(df.len() as i64).to_le_bytes());
+    p.extend_from_slice(&i64::from(out).to_le_bytes());
+    p.extend_from_slice(&c);
+    p.extend_from_slice(&df);
+    p.extend_from_slice(&e);
+    p
+}
+
+/// one attacker-made (structurally valid) patch applied to a given old file through the memory
+/// patcher, the parsed-object API or the streaming patcher (default / 1 KiB buffer)
+fn zbs_apply(name: &str, d: &[u8]) -> bool {
+    use cascette_formats::zbsdiff::{ZbsDiff, ZbsdiffHeader, ZbsdiffPatcher, apply_patch_memory};
+    let Some((parts, out)) = zbs_split(d) else {
+        set_detail("bad".to_string());
+        return false;
+    };
+    let old = &parts[0];
+    let patch = zbs_patch(&parts[1], &parts[2], &parts[3], out);
+    let r = match name {
+        "zbsmem" => apply_patch_memory(old, &patch),
+        "zbsobj" => ZbsDiff::parse(&patch).and_then(|z| z.apply(old)),
+        _ => ZbsdiffHeader::parse_from_patch(&patch).and_then(|h| {
+            let p = ZbsdiffPatcher::new(Cursor::new(old.clone()), h.output_size as usize);
+            let p = if name == "zbsstream1k" { p.with_buffer_size(1024) } else { p };
+            p.apply_patch_from_data(&patch)
+        }),
+    };
+    set_detail(match &r {
+        Ok(o) => format!("{}:{:016x}", o.len(), fnv1a(o)),
+        Err(_) => "-".to_string(),
+    });
+    r.is_ok()
+}
+
+// ---- list operations on a crafted .lru table -----------------------------------------------------
+/// the distinct keyed entries of the table in slot order (at most 8): the keys the scripts use
+fn lru_table_keys(d: &[u8]) -> Vec<[u8; 9]> {
+    let mut keys: Vec<[u8; 9]> = vec![];
+    if let Some((_, es)) = cascette_client_storage::lru::lru_file::deserialize(d) {
+        for e in es {
+            if e.is_active() && !keys.contains(&e.ekey) && keys.len() < 8 {
+                keys.push(e.ekey);
+            }
+        }
+    }
+    keys
+}
+
+/// `LruManager::load_from_disk` on the file (no eviction in between), then a script of list
+/// operations on the table's OWN keys, each followed by a complete `for_each_entry` walk. Detail =
+/// `<result>:<first key byte of every entry the walk reported>` per step, joined by `/`.
+fn lru_ops(name: &str, d: &[u8], tmp: &std::path::Path) -> bool {
+    let dir = tmp.join("lruops");
+    let _ = std::fs::remove_dir_all(&dir);
+    std::fs::create_dir_all(&dir).expect("worker temp dir");
+    std::fs::write(cascette_client_storage::lru::lru_file::lru_file_path(&dir, 7), d).expect("worker temp write");
+    let rt = tokio::runtime::Builder::new_current_thread().enable_all().build().expect("runtime");
+    let mut m = cascette_client_storage::lru::LruManager::new(4, dir.clone());
+    let ok = rt.block_on(m.load_from_disk(7)).is_ok();
+    if !ok {
+        let _ = std::fs::remove_dir_all(&dir);
+        return false;
+    }
+    let keys = lru_table_keys(d);
+    const NEW: [u8; 9] = [0xEE; 9];
+    fn walk(m: &cascette_client_storage::lru::LruManager) -> String {
+        let mut w = String::new();
+        m.for_each_entry(|k| w.push_str(&format!("{:02x}", k[0])));
+        if w.is_empty() { "-".to_string() } else { w }
+    }
+    let mut steps = vec![format!("l:{}", walk(&m))];
+    let mut step = |m: &cascette_client_storage::lru::LruManager, r: usize| steps.push(format!("{r}:{}", walk(m)));
+    match name {
+        "lrutouch" => {
+            for k in &keys {
+                let r = m.touch(k);
+                step(&m, usize::from(r));
+            }
+            let r = m.touch(&NEW);
+            step(&m, usize::from(r));
+        }
+        "lruremove" => {
+            for k in &keys {
+                let r = m.remove(k);
+                step(&m, usize::from(r));
+            }
+            let r = m.touch(&NEW);
+            step(&m, usize::from(r));
+        }
+        "lruevict" => {
+            let r = m.evict_tail().is_some();
+            step(&m, usize::from(r));
+            if let Some(k) = keys.first() {
+                let r = m.touch(k);
+                step(&m, usize::from(r));
+            }
+            let (n, _) = m.evict_to_target(u64::MAX, 1);
+            step(&m, n);
+            let r = m.touch(&NEW);
+            step(&m, usize::from(r));
+        }
+        _ => {
+            for (i, k) in keys.iter().enumerate() {
+                let r = if i % 2 == 0 { m.touch(k) } else { m.remove(k) };
+                step(&m, usize::from(r));
+            }
+            for k in keys.iter().rev() {
+                let r = m.touch(k);
+                step(&m, usize::from(r));
+            }
+        }
+    }
+    set_detail(steps.join("/"));
+    let _ = std::fs::remove_dir_all(&dir);
+    true
+}
+
 fn run_parser(name: &str, d: &[u8], tmp: &std::path::Path) -> bool {
     use cascette_formats::CascFormat;
     match name {
@@ -171,6 +343,16 @@ fn run_parser(name: &str, d: &[u8], tmp: &std::path::Path) -> bool {
             cascette_formats::zbsdiff::apply_patch_memory(&old, d).is_ok()
         }
         "zbsparse" => cascette_formats::zbsdiff::ZbsDiff::parse(d).is_ok(),
+        "zbsmem" | "zbsstream" | "zbsstream1k" | "zbsobj" => zbs_apply(name, d),
+        "phdr" => cascette_formats::patch_index::PatchIndexHeader::parse(d).is_ok(),
+        "pblock2" => cascette_formats::patch_index::parser::parse_block2(d).is_ok(),
+        "pblock8" => cascette_formats::patch_index::parser::parse_block8(d).is_ok(),
+        // first byte = the key size handed to the entry parser, the rest = its input
+        "pentry" => match d.split_first() {
+            Some((ks, rest)) => cascette_formats::patch_index::PatchIndexEntry::parse(rest, *ks).is_some(),
+            None => false,
+        },
+        "lrutouch" | "lruremove" | "lruevict" | "lrumix" => lru_ops(name, d, tmp),
         "cfgbuild" => cascette_formats::config::BuildConfig::parse(d).is_ok(),
         "cfgcdn" => cascette_formats::config::CdnConfig::parse(d).is_ok(),
         "cfgpatch" => cascette_formats::config::PatchConfig::parse(d).is_ok(),
@@ -268,7 +450,10 @@ fn worker_main() {
     let h = std::thread::Builder::new()
         .stack_size(1024 * 1024)
         .spawn(|| {
-            let tmp = std::env::temp_dir().join(format!("c02_worker_{}", std::process::id()));
+            // scratch files of the file-based entry points: tmpfs when there is one (thousands of
+            // create / write / remove cycles per run)
+            let base = if std::path::Path::new("/dev/shm").is_dir() { std::path::PathBuf::from("/dev/shm") } else { std::env::temp_dir() };
+            let tmp = base.join(format!("c02_worker_{}", std::process::id()));
             std::fs::create_dir_all(&tmp).expect("worker tmp");
             let stdin = std::io::stdin();
             let mut out = std::io::stdout();
@@ -371,7 +556,14 @@ struct Pool {
 impl Pool {
     fn run(&mut self, parser: &str, data: &[u8]) -> Obs {
         // list operations on a table of a few entries take microseconds: a hang shows at once
-        let timeout = if parser == "lruuse" { Duration::from_millis(1500) } else { self.timeout };
+        let timeout = if parser == "lruuse" || LRU_OPS.contains(&parser) {
+            Duration::from_millis(1500)
+        } else if parser.starts_with("zbs") && data.len() < 65536 {
+            // structured patches are a few hundred bytes: a second is already "does not return"
+            Duration::from_millis(3000)
+        } else {
+            self.timeout
+        };
         if self.w.is_none() {
             self.w = Some(Worker::spawn());
             self.respawns += 1;
@@ -508,7 +700,7 @@ fn parse_edits(s: &str) -> Option<Vec<Edit>> {
 /// a growing Vec doubles). The LZ4 size prefix (≤ 1 GiB, documented cap) is added per input.
 fn bound_ck(parser: &str) -> (usize, usize) {
     match parser {
-        "blte" | "tvfsblte" | "zbsdiff" | "parchive" | "encchunk" => (2100, 8 << 20),
+        "blte" | "tvfsblte" | "zbsdiff" | "parchive" | "encchunk" | "zbsmem" | "zbsstream" | "zbsstream1k" | "zbsobj" => (2100, 8 << 20),
         _ => (64, 8 << 20),
     }
 }
@@ -597,6 +789,7 @@ struct Ctx {
     emitted: std::collections::HashSet<String>,
     quick: bool,
     follow: Vec<String>, // follow-up request lines (`espec`, `lhdr`) the last `case` emitted by itself
+    timeouts: BTreeMap<String, u32>, // calls that did not return, per family (each costs its time limit)
 }
 
 impl Ctx {
@@ -619,7 +812,8 @@ impl Ctx {
         let limit = c.saturating_mul(data.len()).saturating_add(k).saturating_add(allow);
         let big = obs.max_alloc > limit;
         let req = format!("run {parser} {seed_id} {et} c={c} k={k} cap={WORKER_CAP} obs={}", obs.class);
-        self.s.line(&req, &format!("{} big={}", obs.class, u8::from(big)));
+        let det = if DETAILED.contains(&parser) && matches!(obs.class, "ok" | "err") { format!(" d={}", obs.detail) } else { String::new() };
+        self.s.line(&req, &format!("{} big={}{det}", obs.class, u8::from(big)));
         self.s.tally(&format!("parser:{parser}"));
         self.s.tally(&format!("class:{}", obs.class));
         self.s.tally(&format!("kind:{kind}"));
@@ -641,7 +835,11 @@ impl Ctx {
             _ => {
                 // narrow sig for the shape C17 records as format-level (lru-zero-key-reload): an entry
                 // with the all-zero key ON the list comes back linked AND free, the next touch reuses it
-                let sig = if parser == "lruuse" && lru_zero_key_linked(&data) { "lruuse-zero-key-linked".to_string() } else { format!("timeout-{parser}") };
+                // (only a table the load is RIGHT to accept has that shape: a hang behind a load that
+                // should have been refused is a different defect)
+                let lru = parser == "lruuse" || LRU_OPS.contains(&parser);
+                let sig = if lru && lru_zero_key_linked(&data) && lru_ref_accepts(&data) { "lruuse-zero-key-linked".to_string() } else { format!("timeout-{parser}") };
+                *self.timeouts.entry(if lru { "lru".to_string() } else { parser.to_string() }).or_insert(0) += 1;
                 self.s.oracle_fail(&sig, &format!("{parser} did not return within its time limit on {} bytes [{seed_id} {et}]", data.len()), &short(&replay));
             }
         }
@@ -1040,8 +1238,9 @@ fn splice_cases(c: &mut Ctx, parser: &str, sid: &str) {
         vals.sort_unstable();
         vals.dedup();
         if c.quick && seed.len() > 100_000 {
-            // quick tier, very large seed (the 150 KB nested-folder TVFS): three values per field
-            vals = vec![0, mask, actual.wrapping_add(1) & mask];
+            // quick tier, very large seed (the 150 KB nested-folder TVFS; the model copies the rest of the
+            // table per level): two values per field
+            vals = vec![mask, actual.wrapping_add(1) & mask];
         }
         for v in vals {
             if v == actual {
@@ -1747,7 +1946,7 @@ fn tvfs_nesting_cases(c: &mut Ctx, rng: &mut Rng, thorough: bool) {
             run(c, &vec![sh; l], false, false, "tvfs-nest-one");
         }
         // named folders make the joined path grow with the depth: keep the far case moderate
-        run(c, &vec![sh; if thorough { 30_000 } else { 3_000 }], false, false, "tvfs-nest-one");
+        run(c, &vec![sh; if thorough { 30_000 } else if sh == 0 { 3_000 } else { 1_500 }], false, false, "tvfs-nest-one");
         // file siblings before / after / around the folder (quick tier: one arrangement per shape, rotating)
         for (vi, (b, a)) in variants.iter().enumerate() {
             if thorough || vi == sh % 3 {
@@ -1868,6 +2067,116 @@ fn lru_zero_key_linked(d: &[u8]) -> bool {
     false
 }
 
+/// the harness' own statement of what `load_from_disk` has to establish before the list operations
+/// may run: following `next` from the LRU tail visits distinct slots of the table and ends at the
+/// sentinel, each visited slot points back at the one before it, the last one is the MRU head, and
+/// every keyed slot was visited (written independently of `links_are_valid`)
+fn lru_ref_accepts(d: &[u8]) -> bool {
+    const S: u32 = 0xFFFF_FFFF;
+    let Some((h, es)) = cascette_client_storage::lru::lru_file::deserialize(d) else {
+        return false;
+    };
+    let mut order: Vec<u32> = vec![];
+    let mut idx = h.lru_tail;
+    while idx != S {
+        if idx as usize >= es.len() || order.contains(&idx) {
+            return false;
+        }
+        order.push(idx);
+        idx = es[idx as usize].next;
+    }
+    for (i, &sl) in order.iter().enumerate() {
+        if es[sl as usize].prev != if i == 0 { S } else { order[i - 1] } {
+            return false;
+        }
+    }
+    h.mru_head == order.last().copied().unwrap_or(S) && es.iter().enumerate().all(|(i, e)| !e.is_active() || order.contains(&(i as u32)))
+}
+
+/// one crafted table through the load (`lruload` = run_cycle, `lru` = deserialize) and — unless it
+/// has the known shape (a table the load is right to accept, with the all-zero key on the list:
+/// finding lruuse-zero-key-linked, every use hangs and costs the time limit) — through the list
+/// operations: the fixed script `lruuse` and the four scripts on the table's own keys
+fn lru_table_case(c: &mut Ctx, d: Vec<u8>, kind: &str) {
+    c.case("lruload", "empty", &[Edit::App(d.clone())], kind);
+    c.case("lru", "empty", &[Edit::App(d.clone())], kind);
+    if lru_zero_key_linked(&d) && lru_ref_accepts(&d) {
+        c.s.tally("lru-links:zero-key-linked");
+    } else if c.timeouts.get("lru").copied().unwrap_or(0) >= 6 {
+        c.s.tally("lru-links:ops-skipped-after-6-hangs");
+    } else {
+        c.case("lruuse", "empty", &[Edit::App(d.clone())], kind);
+        for p in LRU_OPS {
+            c.case(p, "empty", &[Edit::App(d.clone())], kind);
+        }
+        c.s.tally(if lru_ref_accepts(&d) { "lru-ops:load-should-accept" } else { "lru-ops:load-should-refuse" });
+    }
+}
+
+/// STRUCTURAL family: a well-formed list over l slots of which any subset is KEY-LESS (all-zero key,
+/// linked), plus 0..2 slots OFF the list that are keyed (fresh key, or the key of a listed slot) or
+/// key-less, whose own prev / next are every combination of {sentinel, each listed slot, itself,
+/// one past the table}; duplicates of a key on the list. The load has to refuse every table with a
+/// keyed slot off the list — `touch` / `remove` unlink such a slot through its own links and splice
+/// a cycle into the list — whatever else the table contains (e.g. as many key-less linked slots as
+/// keyed unlinked ones, so that counts match).
+fn lru_struct_cases(c: &mut Ctx, rng: &mut Rng, thorough: bool) {
+    c.seed("empty", vec![]);
+    const S: u32 = 0xFFFF_FFFF;
+    let maxl: u32 = if thorough { 4 } else { 3 };
+    for l in 1..=maxl {
+        for rev in [false, true] {
+            // list position i (0 = LRU tail) lives in slot order[i]
+            let order: Vec<u32> = if rev { (0..l).rev().collect() } else { (0..l).collect() };
+            for zmask in 0..(1u32 << l) {
+                let mut base = vec![(S, S, 0u8); l as usize];
+                for (i, &sl) in order.iter().enumerate() {
+                    let key = if zmask >> i & 1 == 1 { 0 } else { 0xB0 + sl as u8 };
+                    base[sl as usize] = (if i == 0 { S } else { order[i - 1] }, if i + 1 == order.len() { S } else { order[i + 1] }, key);
+                }
+                let (head, tail) = (order[l as usize - 1], order[0]);
+                lru_table_case(c, lru_links_file(head, tail, &base), "lru-struct-list");
+                // a duplicate key ON the list
+                if l >= 2 && zmask == 0 {
+                    let mut e = base.clone();
+                    e[order[1] as usize].2 = e[order[0] as usize].2;
+                    lru_table_case(c, lru_links_file(head, tail, &e), "lru-struct-dup-listed");
+                }
+                // one slot off the list
+                let x = l;
+                let mut opts: Vec<u32> = vec![S, x, x + 1];
+                opts.extend(0..l);
+                for xkey in [0xE0u8, 0xB0 + order[0] as u8, 0] {
+                    if xkey != 0xE0 && (zmask != 0 && !thorough) {
+                        continue; // duplicate-of-listed / key-less stale slot: with the fully keyed list only (quick)
+                    }
+                    for &p in &opts {
+                        for &n in &opts {
+                            let mut e = base.clone();
+                            e.push((p, n, xkey));
+                            lru_table_case(c, lru_links_file(head, tail, &e), match xkey { 0xE0 => "lru-struct-off-keyed", 0 => "lru-struct-off-keyless", _ => "lru-struct-off-dup" });
+                        }
+                    }
+                }
+                // two slots off the list, both keyed (as many as two key-less listed slots): links drawn
+                // from the same set, 10 samples (thorough 60) per list
+                if l >= 2 {
+                    let (x1, x2) = (l, l + 1);
+                    let mut o2: Vec<u32> = vec![S, x1, x2];
+                    o2.extend(0..l);
+                    for _ in 0..if thorough { 60 } else { 10 } {
+                        let mut e = base.clone();
+                        e.push((*rng.pick(&o2), *rng.pick(&o2), 0xE0));
+                        e.push((*rng.pick(&o2), *rng.pick(&o2), if rng.chance(1, 4) { 0 } else { 0xE1 }));
+                        lru_table_case(c, lru_links_file(head, tail, &e), "lru-struct-off-two");
+                    }
+                }
+                c.s.tally(&format!("lru-struct:keyless-listed={}", zmask.count_ones()));
+            }
+        }
+    }
+}
+
 /// a `.lru` file (right MD5) with the given head, tail and entries (prev, next, key byte; key byte 0
 /// = an inactive entry)
 fn lru_links_file(head: u32, tail: u32, entries: &[(u32, u32, u8)]) -> Vec<u8> {
@@ -1886,17 +2195,7 @@ fn lru_link_cases(c: &mut Ctx, rng: &mut Rng, thorough: bool) {
     c.seed("empty", vec![]);
     const S: u32 = 0xFFFF_FFFF;
     let run = |c: &mut Ctx, head: u32, tail: u32, es: &[(u32, u32, u8)], kind: &str| {
-        let d = lru_links_file(head, tail, es);
-        c.case("lruload", "empty", &[Edit::App(d.clone())], kind);
-        c.case("lru", "empty", &[Edit::App(d.clone())], kind);
-        // the list operations after the load. Tables with the all-zero key ON the list can hang there
-        // (known finding lruuse-zero-key-linked; each hang costs the time limit): only the witness
-        // shape below is run through them
-        if lru_zero_key_linked(&d) {
-            c.s.tally("lru-links:zero-key-linked");
-        } else {
-            c.case("lruuse", "empty", &[Edit::App(d)], kind);
-        }
+        lru_table_case(c, lru_links_file(head, tail, es), kind);
     };
     // a well-formed list over the slots in `order` (tail first)
     let list = |order: &[u32], slots: usize| -> (u32, u32, Vec<(u32, u32, u8)>) {
@@ -1954,6 +2253,315 @@ fn lru_link_cases(c: &mut Ctx, rng: &mut Rng, thorough: bool) {
     }
 }
 
+// ---------------------------------------------------------------------------------------------
+// patch index: every block parser reached DIRECTLY and through whole files in which it is the one
+// that runs (block 8 is only parsed when no block 2 precedes it; the CDN fixtures and the builder
+// always put block 2 first)
+// ---------------------------------------------------------------------------------------------
+/// a patch index file: 14-byte preamble, optional extra header, descriptors, block data
+fn pindex_file(extra: &[u8], blocks: &[(u32, Vec<u8>)]) -> Vec<u8> {
+    let header_size = 14 + extra.len() + 4 + 8 * blocks.len();
+    let total = header_size + blocks.iter().map(|b| b.1.len()).sum::<usize>();
+    let mut d = vec![];
+    d.extend_from_slice(&(header_size as u32).to_le_bytes());
+    d.extend_from_slice(&1u32.to_le_bytes());
+    d.extend_from_slice(&(total as u32).to_le_bytes());
+    d.extend_from_slice(&(extra.len() as u16).to_le_bytes());
+    d.extend_from_slice(extra);
+    d.extend_from_slice(&(blocks.len() as u32).to_le_bytes());
+    for (t, b) in blocks {
+        d.extend_from_slice(&t.to_le_bytes());
+        d.extend_from_slice(&(b.len() as u32).to_le_bytes());
+    }
+    for (_, b) in blocks {
+        d.extend_from_slice(b);
+    }
+    d
+}
+
+/// block type 2: `count`, `key_size`, then `avail` bytes of entry data
+fn pblock2(count: u32, ks: u8, avail: usize) -> Vec<u8> {
+    let mut b = count.to_le_bytes().to_vec();
+    b.push(ks);
+    b.extend((0..avail).map(|i| 0x40 | (i % 61) as u8));
+    b
+}
+
+/// block type 8: version, key_size, data_offset, count, three unknown fields, padding up to
+/// `data_offset` when that lies behind the 14-byte header, then `avail` bytes of entry data
+fn pblock8(version: u8, ks: u8, data_offset: u16, count: u32, avail: usize) -> Vec<u8> {
+    let mut b = vec![version, ks];
+    b.extend_from_slice(&data_offset.to_le_bytes());
+    b.extend_from_slice(&count.to_le_bytes());
+    b.extend_from_slice(&(3 * u32::from(ks) + 14).to_le_bytes());
+    b.extend_from_slice(&[0, 0]);
+    if (data_offset as usize) > b.len() && (data_offset as usize) < 4096 {
+        b.resize(data_offset as usize, 0xDD);
+    }
+    b.extend((0..avail).map(|i| 0x80 | (i % 61) as u8));
+    b
+}
+
+const PINDEX_KS: [u8; 16] = [0, 1, 2, 8, 9, 15, 16, 17, 18, 31, 32, 85, 86, 128, 254, 255];
+
+fn pindex_struct_cases(c: &mut Ctx, rng: &mut Rng, thorough: bool) {
+    c.seed("empty", vec![]);
+    let esz = |ks: u8| 3 * ks as usize + 13;
+    // what a block parser is given: directly, as the only block of a file, behind a type-1 block, and
+    // (type 8) in front of / behind a type-2 block
+    let b1: Vec<u8> = vec![3, 0, 0, 0, 0, 0x6E, 0];
+    let good2 = pblock2(1, 16, 61);
+    let emit = |c: &mut Ctx, ty: u32, block: &[u8], kind: &str, whole: bool| {
+        c.case(if ty == 2 { "pblock2" } else { "pblock8" }, "empty", &[Edit::App(block.to_vec())], kind);
+        if whole {
+            c.case("pindex", "empty", &[Edit::App(pindex_file(&[], &[(ty, block.to_vec())]))], kind);
+            c.case("pindex", "empty", &[Edit::App(pindex_file(&[0], &[(1, b1.clone()), (ty, block.to_vec())]))], kind);
+            if ty == 8 {
+                c.case("pindex", "empty", &[Edit::App(pindex_file(&[0], &[(8, block.to_vec()), (2, good2.clone())]))], kind);
+                c.case("pindex", "empty", &[Edit::App(pindex_file(&[0], &[(2, good2.clone()), (8, block.to_vec())]))], kind);
+            }
+        }
+    };
+    // 1. the key-size byte: ALL 256 values with one complete entry (the entry decoder is reached),
+    //    through the entry parser, block 2 and block 8
+    for ks in 0..=255u8 {
+        let mut e = vec![ks];
+        e.extend((0..esz(ks)).map(|i| i as u8));
+        c.case("pentry", "empty", &[Edit::App(e)], "pindex-keysize");
+        emit(c, 2, &pblock2(1, ks, esz(ks)), "pindex-keysize", true);
+        emit(c, 8, &pblock8(3, ks, 14, 1, esz(ks)), "pindex-keysize", true);
+        c.s.tally(&format!("pindex-keysize:{}", match ks { 0..=15 => "<16", 16 => "16", 17..=85 => "17..85", _ => ">85" }));
+    }
+    // 2. key size x entry count x bytes available (one entry short by 1 byte, exact, one byte / one
+    //    entry more), block 8 also x data_offset
+    for &ks in &PINDEX_KS {
+        let e = esz(ks);
+        // the entry parser on its own: every length around the entry size
+        for len in [0usize, 1, e.saturating_sub(1), e, e + 1] {
+            let mut d = vec![ks];
+            d.extend((0..len).map(|i| i as u8));
+            c.case("pentry", "empty", &[Edit::App(d)], "pindex-entry-len");
+        }
+        for count in [0u32, 1, 2, 3] {
+            let need = count as usize * e;
+            for avail in [need.saturating_sub(1), need, need + 1, need + e] {
+                let whole = count <= 2 && (avail == need || avail + 1 == need);
+                emit(c, 2, &pblock2(count, ks, avail), "pindex-block2", whole);
+                for off in [0u16, 1, 13, 14, 15, 16, 40] {
+                    // entries are read from data_offset: the bytes that count are those behind it
+                    let behind = if off >= 14 { avail } else { avail.saturating_sub(14 - off as usize) };
+                    emit(c, 8, &pblock8(3, ks, off, count, behind), "pindex-block8", whole && (off == 14 || off == 0 || off == 40));
+                }
+            }
+        }
+        // counts that cannot fit
+        for count in [0x100u32, 0x1_0000, 0x00FF_FFFF, 0x7FFF_FFFF, 0xFFFF_FFFF] {
+            emit(c, 2, &pblock2(count, ks, 2 * e), "pindex-count", ks == 16 || ks == 17);
+            emit(c, 8, &pblock8(3, ks, 14, count, 2 * e), "pindex-count", ks == 16 || ks == 17);
+        }
+    }
+    // 3. block 8 header bytes: ALL 256 version bytes, data offsets around and beyond the block
+    for v in 0..=255u8 {
+        for ks in [16u8, 17] {
+            emit(c, 8, &pblock8(v, ks, 14, 1, esz(ks)), "pindex-block8-version", v <= 4 || v == 255);
+        }
+    }
+    for ks in [16u8, 17, 255] {
+        let len = 14 + esz(ks);
+        for off in [len as u16 - 1, len as u16, len as u16 + 1, 0x00FF, 0x0100, 0x7FFF, 0x8000, 0xFFFF] {
+            for count in [0u32, 1] {
+                let mut b = pblock8(3, ks, 14, count, esz(ks));
+                b[2..4].copy_from_slice(&off.to_le_bytes());
+                emit(c, 8, &b, "pindex-block8-offset", true);
+            }
+        }
+    }
+    // 4. both block parsers cut at EVERY length (a well-formed block of 2 entries, key sizes 16 and 17)
+    for ks in [16u8, 17] {
+        let b2 = pblock2(2, ks, 2 * esz(ks));
+        let b8 = pblock8(3, ks, 14, 2, 2 * esz(ks));
+        for l in 0..b2.len().min(if thorough { 400 } else { 80 }) {
+            emit(c, 2, &b2[..l], "pindex-block-cut", false);
+        }
+        for l in 0..b8.len().min(if thorough { 400 } else { 80 }) {
+            emit(c, 8, &b8[..l], "pindex-block-cut", false);
+        }
+    }
+    // 5. block lists: every ordered pair and some triples of the types {1, 2, 8, 6, 10, 0, 2^32-1} with
+    //    well-formed and oversized-key contents (which block parser runs depends on the ORDER)
+    let types: [u32; 7] = [1, 2, 8, 6, 10, 0, 0xFFFF_FFFF];
+    let content = |t: u32, ks: u8| -> Vec<u8> {
+        match t {
+            2 => pblock2(1, ks, 3 * ks as usize + 13),
+            8 | 6 | 10 => pblock8(3, ks, 14, 1, 3 * ks as usize + 13),
+            _ => vec![3, 0, 0, 0, 0, 0x6E, 0],
+        }
+    };
+    for &t1 in &types {
+        for &t2 in &types {
+            for (k1, k2) in [(16u8, 16u8), (16, 17), (17, 16), (255, 255)] {
+                c.case("pindex", "empty", &[Edit::App(pindex_file(&[0], &[(t1, content(t1, k1)), (t2, content(t2, k2))]))], "pindex-block-order");
+            }
+        }
+    }
+    for _ in 0..if thorough { 2000 } else { 150 } {
+        let n = rng.range(1, 4) as usize;
+        let blocks: Vec<(u32, Vec<u8>)> = (0..n)
+            .map(|_| {
+                let t = *rng.pick(&types);
+                let ks = *rng.pick(&PINDEX_KS);
+                let mut b = content(t, ks);
+                if rng.chance(1, 4) {
+                    let cut = rng.below(b.len() as u64 + 1) as usize;
+                    b.truncate(cut);
+                }
+                (t, b)
+            })
+            .collect();
+        c.case("pindex", "empty", &[Edit::App(pindex_file(&[0], &blocks))], "pindex-block-order");
+    }
+    // 6. the header's own extra block: extra_header_len x its key-size byte, complete and cut, through
+    //    the header parser and the whole-file parser
+    for xl in [0u16, 1, 2, 16, 17, 18, 255, 256, 257, 0xFFFF] {
+        for hks in [0u8, 1, 15, 16, 17, 254, 255] {
+            for have in [0usize, 1, hks as usize, hks as usize + 1, xl as usize, (xl as usize).max(hks as usize + 1)] {
+                if have > 600 {
+                    continue;
+                }
+                let mut extra = vec![hks];
+                extra.extend((0..have.saturating_sub(1)).map(|i| i as u8));
+                extra.truncate(have);
+                let mut d = pindex_file(&extra, &[(2, good2.clone())]);
+                d[12..14].copy_from_slice(&xl.to_le_bytes());
+                c.case("phdr", "empty", &[Edit::App(d.clone())], "pindex-extra-header");
+                c.case("pindex", "empty", &[Edit::App(d)], "pindex-extra-header");
+            }
+        }
+    }
+}
+
+// ---------------------------------------------------------------------------------------------
+// ZBSDIFF: structurally valid patches (valid header, well-formed zlib blocks) whose CONTROL ENTRIES
+// are adversarial, applied to old files of chosen lengths through both patchers
+// ---------------------------------------------------------------------------------------------
+fn offtout(v: i64) -> [u8; 8] {
+    // bsdiff sign-magnitude; `NEG_ZERO` = sign bit on a zero magnitude
+    if v == i64::MIN {
+        return [0, 0, 0, 0, 0, 0, 0, 0x80];
+    }
+    let mut b = v.unsigned_abs().to_le_bytes();
+    if v < 0 {
+        b[7] |= 0x80;
+    }
+    b
+}
+const NEG_ZERO: i64 = i64::MIN;
+
+fn zbs_ctl(entries: &[(i64, i64, i64)]) -> Vec<u8> {
+    let mut c = vec![];
+    for (d, x, s) in entries {
+        c.extend_from_slice(&offtout(*d));
+        c.extend_from_slice(&offtout(*x));
+        c.extend_from_slice(&offtout(*s));
+    }
+    c
+}
+
+const ZBS_APPLY: [&str; 4] = ["zbsmem", "zbsstream", "zbsstream1k", "zbsobj"];
+
+fn zbs_struct_cases(c: &mut Ctx, rng: &mut Rng, thorough: bool) {
+    c.seed("empty", vec![]);
+    let run = |c: &mut Ctx, old: &[u8], entries: &[(i64, i64, i64)], dshort: i64, xshort: i64, oadj: i64, kind: &str| {
+        let nd: i64 = entries.iter().map(|e| e.0.clamp(0, 70_000)).sum();
+        let nx: i64 = entries.iter().map(|e| e.1.clamp(0, 70_000)).sum();
+        let diff: Vec<u8> = (0..(nd + dshort).clamp(0, 60_000)).map(|i| 1 + (i % 7) as u8).collect();
+        let extra: Vec<u8> = (0..(nx + xshort).clamp(0, 60_000)).map(|i| 0x60 + (i % 26) as u8).collect();
+        let out = (nd + nx + oadj).clamp(0, i64::from(u32::MAX)) as u32;
+        let d = zbs_composite(old, &zbs_ctl(entries), &diff, &extra, out);
+        for p in ZBS_APPLY {
+            if c.timeouts.get(p).copied().unwrap_or(0) < 4 {
+                c.case(p, "empty", &[Edit::App(d.clone())], kind);
+            }
+        }
+    };
+    let pat = |n: usize| -> Vec<u8> { (0..n).map(|i| (i % 251) as u8 ^ 0x5A).collect() };
+    // 1. small old files: first entry (diff window, seek) across / beyond / before the old file, then
+    //    every follow-up entry shape
+    let follow: [(i64, i64, i64); 7] = [(0, 0, 0), (0, 1, 0), (1, 0, 0), (3, 0, 0), (0, 0, -1), (2, 1, 5), (0, 0, NEG_ZERO)];
+    for n in [0usize, 1, 4, 5] {
+        let old = pat(n);
+        let ni = n as i64;
+        for d1 in [0i64, 1, ni - 1, ni, ni + 1, ni + 7] {
+            if d1 < 0 {
+                continue;
+            }
+            let seeks = [0i64, 1, -1, -d1, -d1 - 1, ni - d1, ni - d1 + 1, 10, -1000, 1 << 31, 1 << 62, i64::MAX, -i64::MAX, NEG_ZERO];
+            for s1 in seeks {
+                // the offending entry LAST (nothing follows), and followed by each shape
+                run(c, &old, &[(d1, 0, s1)], 0, 0, 0, "zbs-ctl-last");
+                for f in follow {
+                    run(c, &old, &[(d1, 0, s1), f], 0, 0, 0, "zbs-ctl-then");
+                }
+                run(c, &old, &[(d1, 1, s1), (1, 0, 0), (0, 0, 0), (2, 0, -2)], 0, 0, 0, "zbs-ctl-then");
+            }
+        }
+        c.s.tally(&format!("zbs-old-len:{n}"));
+    }
+    // 2. block lengths and the announced output size off by one, empty / invalid control blocks
+    for n in [0usize, 4] {
+        let old = pat(n);
+        for (ds, xs, oa) in [(-1i64, 0i64, 0i64), (1, 0, 0), (0, -1, 0), (0, 1, 0), (0, 0, -1), (0, 0, 1), (-1, -1, 0)] {
+            run(c, &old, &[(2, 1, 0), (3, 2, 1)], ds, xs, oa, "zbs-block-lengths");
+            run(c, &old, &[(6, 0, 0), (0, 1, 0)], ds, xs, oa, "zbs-block-lengths");
+        }
+        run(c, &old, &[], 0, 0, 0, "zbs-ctl-invalid");
+        for bad in [(-1i64, 0i64, 0i64), (0, -1, 0), (10_000_000, 0, 0), (10_000_001, 0, 0), (0, 10_000_001, 0), (i64::MAX, 0, 0), (NEG_ZERO, NEG_ZERO, NEG_ZERO)] {
+            run(c, &old, &[bad], 0, 0, 0, "zbs-ctl-invalid");
+            run(c, &old, &[(1, 1, 0), bad, (1, 0, 0)], 0, 0, 0, "zbs-ctl-invalid");
+        }
+        // a control block that is not a whole number of records
+        for cut in [1usize, 8, 23, 25, 47] {
+            let mut ctl = zbs_ctl(&[(1, 1, 0), (1, 0, 0)]);
+            ctl.truncate(cut);
+            let d = zbs_composite(&old, &ctl, &[1, 2], &[3], 3);
+            for p in ZBS_APPLY {
+                c.case(p, "empty", &[Edit::App(d.clone())], "zbs-ctl-invalid");
+            }
+        }
+    }
+    // 3. old files around the streaming buffer sizes: a diff window that starts inside the old file and
+    //    ends beyond it, cut by the 1 KiB / 8 KiB read chunks; then one more entry
+    for n in [1023usize, 1024, 1025, 8191, 8192, 8193] {
+        let old = pat(n);
+        let ni = n as i64;
+        for (start, len) in [(0i64, ni + 1), (ni - 1, 2), (ni - 1, 1030), (ni, 5), (ni + 1, 5), (ni - 1024, 1025), (ni - 1024, 2049), (0, ni)] {
+            for f in [(0i64, 0i64, 0i64), (2, 0, 0), (0, 1, -3)] {
+                run(c, &old, &[(0, 0, start), (len, 0, 0), f], 0, 0, 0, "zbs-window-over-eof");
+            }
+        }
+        c.s.tally(&format!("zbs-old-len:{n}"));
+    }
+    // 4. random control lists on small old files
+    for _ in 0..if thorough { 3000 } else { 250 } {
+        let old = pat(*rng.pick(&[0usize, 1, 3, 8, 20]));
+        let k = rng.range(1, 5) as usize;
+        let entries: Vec<(i64, i64, i64)> = (0..k)
+            .map(|_| {
+                let s = match rng.below(6) {
+                    0 => 0,
+                    1 => rng.range(0, 30) as i64,
+                    2 => -(rng.range(0, 30) as i64),
+                    3 => *rng.pick(&[i64::MAX, -i64::MAX, 1 << 40, -(1 << 40), NEG_ZERO]),
+                    _ => rng.range(0, 12) as i64 - 6,
+                };
+                (rng.below(12) as i64, rng.below(4) as i64, s)
+            })
+            .collect();
+        let (ds, xs, oa) = if rng.chance(1, 6) { (rng.range(0, 2) as i64 - 1, rng.range(0, 2) as i64 - 1, rng.range(0, 2) as i64 - 1) } else { (0, 0, 0) };
+        run(c, &old, &entries, ds, xs, oa, "zbs-ctl-random");
+    }
+}
+
 /// `blte::EncryptedHeader::read`: key-name size x IV size x the type byte (ALL 256 values for the
 /// usual 8/4 and 8/8 shapes), complete and cut at every length
 fn enc_hdr_cases(c: &mut Ctx, thorough: bool) {
@@ -1991,7 +2599,7 @@ fn enc_hdr_cases(c: &mut Ctx, thorough: bool) {
 fn cfg_line(c: &mut Ctx) {
     use std::mem::size_of;
     let l = format!(
-        "cfg enc_idx={} enc_pagec={} enc_pagee={} in_tag={} in_entry={} dl_entry={} dl_tag={} sz_entry={} root_hash={} root_rec={} pa_block={} lru_entry={}",
+        "cfg enc_idx={} enc_pagec={} enc_pagee={} in_tag={} in_entry={} dl_entry={} dl_tag={} sz_entry={} root_hash={} root_rec={} pa_block={} lru_entry={} pi_entry={}",
         size_of::<cascette_formats::encoding::IndexEntry>(),
         size_of::<cascette_formats::encoding::Page<cascette_formats::encoding::CKeyPageEntry>>(),
         size_of::<cascette_formats::encoding::Page<cascette_formats::encoding::EKeyPageEntry>>(),
@@ -2004,6 +2612,7 @@ fn cfg_line(c: &mut Ctx) {
         size_of::<cascette_formats::root::RootRecord>(),
         size_of::<cascette_formats::patch_archive::PatchBlock>(),
         size_of::<cascette_client_storage::lru::lru_file::LruFileEntry>(),
+        size_of::<cascette_formats::patch_index::PatchIndexEntry>(),
     );
     c.s.line(&l, "ok");
     // the key names of the key store handed to the BLTE decoders (decimal, sorted)
@@ -2021,7 +2630,7 @@ fn main() {
     let args = Args::parse();
     quiet_panics();
     let timeout = Duration::from_secs(if args.thorough() { 20 } else { 10 });
-    let mut c = Ctx { s: Session::new(&args.out), pool: Pool { w: None, timeout, respawns: 0 }, seeds: BTreeMap::new(), emitted: Default::default(), quick: !args.thorough(), follow: vec![] };
+    let mut c = Ctx { s: Session::new(&args.out), pool: Pool { w: None, timeout, respawns: 0 }, seeds: BTreeMap::new(), emitted: Default::default(), quick: !args.thorough(), follow: vec![], timeouts: BTreeMap::new() };
     c.s.rule = "a case is non-trivial when the parser ran on a seed with at least one edit (field splice, truncation, byte mutation) not run before".into();
     let mut rng = Rng::new(args.seed);
 
@@ -2111,7 +2720,7 @@ fn main() {
                 }
             }
         }
-        let per = if thorough { 400 } else if len > 16 * 1024 { 12 } else { 60 };
+        let per = if thorough { 400 } else if len > 100_000 { 4 } else if len > 16 * 1024 { 12 } else { 60 };
         mutate_cases(&mut c, &mut rng, p, sid, per);
     }
     // 3b. ESpec: random token sequences (grammar-level exploration for the complete Lean grammar model)
@@ -2137,6 +2746,10 @@ fn main() {
     library_nesting_cases(&mut c, thorough);
     // 3f. LRU tables with the right checksum and hostile links; the public EncryptedHeader reader
     lru_link_cases(&mut c, &mut rng, thorough);
+    lru_struct_cases(&mut c, &mut rng, thorough);
+    // 3g. patch index block parsers by type / order / key size; ZBSDIFF patches with adversarial control entries
+    pindex_struct_cases(&mut c, &mut rng, thorough);
+    zbs_struct_cases(&mut c, &mut rng, thorough);
     enc_hdr_cases(&mut c, thorough);
     // 3c. V1 MIME epilogue lines of every length; 3d. encrypted-chunk headers with known key names
     mime_epilogue_cases(&mut c, thorough);
